@@ -197,6 +197,15 @@ func (ie *ImageExtractor) processPicture(picture *html.Node) {
 		}
 	}
 
+	// Comments and character data don't belong to a picture either
+	for child := picture.FirstChild; child != nil; {
+		next := child.NextSibling
+		if child.Type != html.ElementNode {
+			picture.RemoveChild(child)
+		}
+		child = next
+	}
+
 	// Sometimes there are sites that use <picture> without any <img> inside it.
 	// For these cases, we use one of the <source> as <img>.
 	imgs := dom.GetElementsByTagName(picture, "img")
